@@ -1,7 +1,7 @@
 (* C09 -- property theorems only: each is closed by [exact] of a lemma proved elsewhere. *)
 From Coq Require Import List Arith ZArith NArith PArith.
 From Muscle Require Import Cont.HtModel Cont.HtStep Cont.HtIdeal Cont.HtLemmas Cont.HtRepr Cont.HtWalk
-                           Cont.HtTable Cont.HtInv Cont.HtSafe Cont.HtSafeAll.
+                           Cont.HtTable Cont.HtInv Cont.HtSafe Cont.HtSafeAll Cont.HtRefine.
 Import ListNotations.
 
 (* InsertIterationEntry is list insertion: if the links of h form the list l1 ++ l2 and e is an
@@ -61,6 +61,24 @@ Theorem C09_tables_consistent : forall var dcap nt ni ops,
     cnt (gett w t) = length (abs (gett w t)).
 Proof. exact tables_consistent. Qed.
 Print Assumptions C09_tables_consistent.
+
+(* the table behaves as the ideal ordered map: for every world satisfying the invariant and EVERY
+   operation, the abstraction (pairs in iteration order, reserved capacity, auto-sort flag of every
+   table) of the code-shaped step is the ideal step on the abstraction, and every table operation
+   returns the ideal result (iterator observations exist at L1 only) *)
+Theorem C09_ht_refines_step : forall var dcap w o, WF w ->
+  abs_world (fst (step1 var dcap w o)) = fst (step0 var dcap (abs_world w) o) /\
+  (is_iter_op o = false -> snd (step1 var dcap w o) = snd (step0 var dcap (abs_world w) o)).
+Proof. exact step_refines. Qed.
+Print Assumptions C09_ht_refines_step.
+
+(* ... and for every finite history from the initial world *)
+Theorem C09_ht_refines : forall var dcap nt ni ops,
+  abs_world (run1 var dcap (init_world dcap nt ni) ops) = run0 var dcap (abs_world (init_world dcap nt ni)) ops /\
+  (Forall (fun o => is_iter_op o = false) ops ->
+   outs1 var dcap (init_world dcap nt ni) ops = outs0 var dcap (abs_world (init_world dcap nt ni)) ops).
+Proof. exact init_refines. Qed.
+Print Assumptions C09_ht_refines.
 
 (* non-vacuity: a reachable world with a live registered iterator whose cookie is an entry *)
 Example C09_iter_safe_nonvacuous :
